@@ -362,3 +362,358 @@ Section Prims.
     - reflexivity.
   Qed.
 End Prims.
+Arguments PAttr {M} e a ap.
+Arguments PEnsure {M} e.
+Arguments PEnsureNoAttr {M} e.
+Arguments PMAttr {M} id r a ap.
+Arguments PMEnsure {M} id r.
+Arguments PMEnsureNoAttr {M} id r.
+Arguments PGAttr {M} a ap.
+Arguments PStyle {M} e a sp.
+Arguments PMStyle {M} id r a sp.
+Arguments PGStyle {M} a sp.
+
+(* ---- commutation of the concrete update functions ---- *)
+Definition addF {X} (a : bytes) (x : X) : option (amap (list X)) -> amap (list X) :=
+  fun o => app_rule a x (match o with Some m => m | None => [] end).
+Definition ensF {X} : option (amap (list X)) -> amap (list X) := fun o => match o with Some m => m | None => [] end.
+
+Lemma addF_congr {X} a (x : X) o1 o2 : opt_rel rules_eq o1 o2 -> rules_eq (addF a x o1) (addF a x o2).
+Proof. apply add_rule_congr. Qed.
+Lemma ensF_congr {X} (o1 o2 : option (amap (list X))) : opt_rel rules_eq o1 o2 -> rules_eq (ensF o1) (ensF o2).
+Proof. apply or_empty_congr. Qed.
+Lemma addF_addF {X} a (x : X) b y o : rules_eq (addF a x (Some (addF b y o))) (addF b y (Some (addF a x o))).
+Proof. unfold addF. apply app_rule_comm. Qed.
+Lemma addF_ensF {X} a (x : X) o : rules_eq (addF a x (Some (ensF o))) (ensF (Some (addF a x o))).
+Proof. apply rules_eq_refl. Qed.
+Lemma ensF_addF {X} a (x : X) o : rules_eq (ensF (Some (addF a x o))) (addF a x (Some (ensF o))).
+Proof. apply rules_eq_refl. Qed.
+Lemma ensF_ensF {X} (o : option (amap (list X))) : rules_eq (ensF (Some (ensF o))) (ensF (Some (ensF o))).
+Proof. apply rules_eq_refl. Qed.
+
+Lemma add_set_in k s x : In x (add_set k s) <-> x = k \/ In x s.
+Proof.
+  unfold add_set. destruct (mem k s) eqn:E.
+  - apply mem_In in E. split; [tauto | intros [->|H]; assumption].
+  - rewrite in_app_iff. cbn. split; [intros [H|[H|[]]]; auto | intros [H|H]; auto].
+Qed.
+Lemma add_set_comm k k' s : same_set (add_set k (add_set k' s)) (add_set k' (add_set k s)).
+Proof. intros x. rewrite !add_set_in. tauto. Qed.
+Lemma add_set_congr k s1 s2 : same_set s1 s2 -> same_set (add_set k s1) (add_set k s2).
+Proof. intros H x. rewrite !add_set_in. rewrite (H x). tauto. Qed.
+Lemma snoc_comm {X} (l : list X) x y : same_set ((l ++ [x]) ++ [y]) ((l ++ [y]) ++ [x]).
+Proof. apply same_set_snoc2. Qed.
+
+Lemma rlook_eq_refl {M X} (t : list (N * M * amap (list X))) : rlook_eq t t.
+Proof. intros id. apply opt_rel_refl. intros e. split; [reflexivity | apply rules_eq_refl]. Qed.
+
+Section CoreEq.
+  Variables M U R : Type.
+  Notation pol := (policy M U R).
+
+  Definition wf_policy (p : pol) : Prop :=
+    NoDup (ids (elsMatchingAndAttrs p)) /\ nodup_tab (elsMatchingAndAttrs p) /\
+    NoDup (ids (elsMatchingAndStyles p)) /\ nodup_tab (elsMatchingAndStyles p).
+
+  Record core_eq (p q : pol) : Prop := {
+    ce_opts : get_opts p = get_opts q;
+    ce_ea : table_eq (elsAndAttrs p) (elsAndAttrs q);
+    ce_ema : rlook_eq (elsMatchingAndAttrs p) (elsMatchingAndAttrs q);
+    ce_ga : rules_eq (globalAttrs p) (globalAttrs q);
+    ce_es : table_eq (elsAndStyles p) (elsAndStyles q);
+    ce_ems : rlook_eq (elsMatchingAndStyles p) (elsMatchingAndStyles q);
+    ce_gs : rules_eq (globalStyles p) (globalStyles q);
+    ce_na : same_set (elsNoAttrs p) (elsNoAttrs q);
+    ce_mna : same_set (elsMatchingNoAttrs p) (elsMatchingNoAttrs q)
+  }.
+
+  Lemma core_eq_refl p : core_eq p p.
+  Proof.
+    constructor; auto using table_eq_refl, rules_eq_refl, same_set_refl, rlook_eq_refl.
+  Qed.
+  Lemma core_eq_of_eq p q : p = q -> core_eq p q.
+  Proof. intros ->. apply core_eq_refl. Qed.
+
+  Lemma rlook_eq_trans {X} (a b c : list (N * M * amap (list X))) : rlook_eq a b -> rlook_eq b c -> rlook_eq a c.
+  Proof.
+    intros H1 H2 id. eapply opt_rel_trans; [|apply H1 | apply H2].
+    intros x y z [E1 R1] [E2 R2]. split; [congruence | eapply rules_eq_trans; eauto].
+  Qed.
+
+  Lemma core_eq_trans p q r : core_eq p q -> core_eq q r -> core_eq p r.
+  Proof.
+    intros A B0. constructor.
+    - rewrite (ce_opts _ _ A). apply (ce_opts _ _ B0).
+    - eapply table_eq_trans; [apply (ce_ea _ _ A) | apply (ce_ea _ _ B0)].
+    - eapply rlook_eq_trans; [apply (ce_ema _ _ A) | apply (ce_ema _ _ B0)].
+    - eapply rules_eq_trans; [apply (ce_ga _ _ A) | apply (ce_ga _ _ B0)].
+    - eapply table_eq_trans; [apply (ce_es _ _ A) | apply (ce_es _ _ B0)].
+    - eapply rlook_eq_trans; [apply (ce_ems _ _ A) | apply (ce_ems _ _ B0)].
+    - eapply rules_eq_trans; [apply (ce_gs _ _ A) | apply (ce_gs _ _ B0)].
+    - eapply same_set_trans; [apply (ce_na _ _ A) | apply (ce_na _ _ B0)].
+    - eapply same_set_trans; [apply (ce_mna _ _ A) | apply (ce_mna _ _ B0)].
+  Qed.
+
+  (* the same rules in well-formed tables: the same behaviour (PolicyEquiv.peq) *)
+  Theorem core_eq_peq p q : wf_policy p -> wf_policy q -> core_eq p q -> peq p q.
+  Proof.
+    intros (W1 & W2 & W3 & W4) (V1 & V2 & V3 & V4) C. pose proof (ce_opts _ _ C) as O.
+    constructor.
+    - exact (f_equal (@o_addSpaces M U R) O).
+    - exact (f_equal (@o_nf M U R) O).
+    - exact (f_equal (@o_nffq M U R) O).
+    - exact (f_equal (@o_nr M U R) O).
+    - exact (f_equal (@o_nrfq M U R) O).
+    - exact (f_equal (@o_co M U R) O).
+    - pose proof (f_equal (@o_sandbox M U R) O) as S. cbn in S. rewrite S. apply opt_rel_refl. apply same_set_refl.
+    - exact (f_equal (@o_tb M U R) O).
+    - exact (f_equal (@o_parse M U R) O).
+    - exact (f_equal (@o_rel M U R) O).
+    - exact (f_equal (@o_data M U R) O).
+    - exact (f_equal (@o_comments M U R) O).
+    - apply (ce_ea _ _ C).
+    - apply rtab_eq_rmap_eq. split; [exact W1|]. split; [exact V1 | apply (ce_ema _ _ C)].
+    - exact W2.
+    - exact V2.
+    - apply (ce_ga _ _ C).
+    - apply (ce_es _ _ C).
+    - apply rtab_eq_rmap_eq. split; [exact W3|]. split; [exact V3 | apply (ce_ems _ _ C)].
+    - exact W4.
+    - exact V4.
+    - apply (ce_gs _ _ C).
+    - pose proof (f_equal (@o_schemes M U R) O) as S. cbn in S. rewrite S. apply rules_eq_refl.
+    - pose proof (f_equal (@o_schemeres M U R) O) as S. cbn in S. rewrite S. apply same_set_refl.
+    - exact (f_equal (@o_rewriter M U R) O).
+    - apply (ce_na _ _ C).
+    - apply (ce_mna _ _ C).
+    - pose proof (f_equal (@o_skip M U R) O) as S. cbn in S. rewrite S. apply same_set_refl.
+    - exact (f_equal (@o_unsafe M U R) O).
+  Qed.
+End CoreEq.
+Arguments core_eq {M U R} p q.
+Arguments wf_policy {M U R} p.
+
+Section PrimLaws.
+  Variables M U R : Type.
+  Notation pol := (policy M U R).
+  Notation prim := (prim M).
+  Notation papply := (@prim_apply M U R).
+
+  (* the pattern a primitive update names, with the pointer identity that stands for it *)
+  Definition prim_rid (x : prim) : option (N * M) :=
+    match x with
+    | PMAttr id r _ _ | PMEnsure id r | PMEnsureNoAttr id r | PMStyle id r _ _ => Some (id, r)
+    | _ => None
+    end.
+  (* ids are pointers: two updates that name the same id name the same pattern *)
+  Definition compat (x y : prim) : Prop :=
+    match prim_rid x, prim_rid y with Some (i, r), Some (j, r') => i = j -> r = r' | _, _ => True end.
+
+  Lemma same_set_app_congr {X} (a b : list X) c : same_set a b -> same_set (a ++ c) (b ++ c).
+  Proof. intros H x. rewrite !in_app_iff, (H x). tauto. Qed.
+
+  Ltac fin := first [ assumption | reflexivity | apply table_eq_refl | apply rules_eq_refl | apply same_set_refl | apply rlook_eq_refl ].
+
+  Theorem prim_congr p q x : core_eq p q -> core_eq (papply p x) (papply q x).
+  Proof.
+    intros [O A B0 C D0 E F G H].
+    destruct x; constructor; cbn [prim_apply set_elsAndAttrs set_elsMatchingAndAttrs set_globalAttrs set_styles set_noattrs get_opts
+      elsAndAttrs elsMatchingAndAttrs globalAttrs elsAndStyles elsMatchingAndStyles globalStyles elsNoAttrs elsMatchingNoAttrs
+      addSpaces requireNoFollow requireNoFollowFQ requireNoReferrer requireNoReferrerFQ requireCrossOrigin requireSandbox addTargetBlank
+      requireParseableURLs allowRelativeURLs allowDataAttributes allowComments allowURLSchemes allowURLSchemeRegexps srcRewriter elsSkipContent allowUnsafe];
+      try fin; try exact O.
+    - apply (upsert_table_congr _ (addF a ap)); [apply addF_congr | exact A].
+    - apply (upsert_table_congr _ ensF); [apply ensF_congr | exact A].
+    - apply (upsert_table_congr _ ensF); [apply ensF_congr | exact A].
+    - apply add_set_congr. exact G.
+    - apply (rupsert_congr _ _ (addF a ap)); [apply addF_congr | exact B0].
+    - apply (rupsert_congr _ _ ensF); [apply ensF_congr | exact B0].
+    - apply (rupsert_congr _ _ ensF); [apply ensF_congr | exact B0].
+    - apply same_set_app_congr. exact H.
+    - apply app_rule_congr. exact C.
+    - apply (upsert_table_congr _ (addF a sp)); [apply addF_congr | exact D0].
+    - apply (rupsert_congr _ _ (addF a sp)); [apply addF_congr | exact E].
+    - apply app_rule_congr. exact F.
+  Qed.
+
+  (* same-slot commutations *)
+  Lemma tc_aa {X} e a (x : X) e' b y t : table_eq (upsert e (addF a x) (upsert e' (addF b y) t)) (upsert e' (addF b y) (upsert e (addF a x) t)).
+  Proof. apply upsert_table_comm. intros o. apply addF_addF. Qed.
+  Lemma tc_ae {X} e a (x : X) e' t : table_eq (upsert e (addF a x) (upsert e' ensF t)) (upsert e' ensF (upsert e (addF a x) t)).
+  Proof. apply upsert_table_comm. intros o. apply addF_ensF. Qed.
+  Lemma tc_ea {X} e e' b (y : X) t : table_eq (upsert e ensF (upsert e' (addF b y) t)) (upsert e' (addF b y) (upsert e ensF t)).
+  Proof. apply upsert_table_comm. intros o. apply ensF_addF. Qed.
+  Lemma tc_ee {X} e e' (t : amap (amap (list X))) : table_eq (upsert e ensF (upsert e' ensF t)) (upsert e' ensF (upsert e ensF t)).
+  Proof. apply upsert_table_comm. intros o. apply rules_eq_refl. Qed.
+
+  Lemma rc_aa {X} id r a (x : X) id' r' b y (t : list (N * M * amap (list X))) : (id = id' -> r = r') ->
+    rlook_eq (rupsert id r (addF a x) (rupsert id' r' (addF b y) t)) (rupsert id' r' (addF b y) (rupsert id r (addF a x) t)).
+  Proof. intros H. apply rupsert_comm; [intros o; apply addF_addF | exact H]. Qed.
+  Lemma rc_ae {X} id r a (x : X) id' r' (t : list (N * M * amap (list X))) : (id = id' -> r = r') ->
+    rlook_eq (rupsert id r (addF a x) (rupsert id' r' ensF t)) (rupsert id' r' ensF (rupsert id r (addF a x) t)).
+  Proof. intros H. apply rupsert_comm; [intros o; apply addF_ensF | exact H]. Qed.
+  Lemma rc_ea {X} id r id' r' b (y : X) (t : list (N * M * amap (list X))) : (id = id' -> r = r') ->
+    rlook_eq (rupsert id r ensF (rupsert id' r' (addF b y) t)) (rupsert id' r' (addF b y) (rupsert id r ensF t)).
+  Proof. intros H. apply rupsert_comm; [intros o; apply ensF_addF | exact H]. Qed.
+  Lemma rc_ee {X} id r id' r' (t : list (N * M * amap (list X))) : (id = id' -> r = r') ->
+    rlook_eq (rupsert id r ensF (rupsert id' r' ensF t)) (rupsert id' r' ensF (rupsert id r ensF t)).
+  Proof. intros H. apply rupsert_comm; [intros o; apply rules_eq_refl | exact H]. Qed.
+
+  Ltac proj := cbn [prim_apply set_elsAndAttrs set_elsMatchingAndAttrs set_globalAttrs set_styles set_noattrs get_opts
+      elsAndAttrs elsMatchingAndAttrs globalAttrs elsAndStyles elsMatchingAndStyles globalStyles elsNoAttrs elsMatchingNoAttrs
+      addSpaces requireNoFollow requireNoFollowFQ requireNoReferrer requireNoReferrerFQ requireCrossOrigin requireSandbox addTargetBlank
+      requireParseableURLs allowRelativeURLs allowDataAttributes allowComments allowURLSchemes allowURLSchemeRegexps srcRewriter elsSkipContent allowUnsafe].
+
+  Theorem prim_comm p x y : compat x y -> core_eq (papply (papply p x) y) (papply (papply p y) x).
+  Proof.
+    intros Hc.
+    destruct x, y; try (apply core_eq_of_eq; reflexivity); unfold compat in Hc; cbn [prim_rid] in Hc;
+      (assert (Hc' := fun E => eq_sym (Hc (eq_sym E))) || idtac);
+      constructor; proj; try fin;
+      first [ apply tc_aa | apply tc_ae | apply tc_ea | apply tc_ee
+            | apply rc_aa; assumption | apply rc_ae; assumption | apply rc_ea; assumption | apply rc_ee; assumption
+            | apply add_set_comm | apply snoc_comm | apply app_rule_comm | idtac ].
+  Qed.
+End PrimLaws.
+
+(* ---- well-formedness is preserved ---- *)
+Section WfPreserved.
+  Variables M U R : Type.
+  Variable dh : bytes -> M.
+  Notation pol := (policy M U R).
+  Notation papply := (@prim_apply M U R).
+
+  Lemma nodup_addF {X} a (x : X) o : match o with Some m => nodup_keys m | None => True end -> nodup_keys (addF a x o).
+  Proof. intros H. unfold addF, app_rule. apply upsert_nodup. destruct o; [exact H | constructor]. Qed.
+  Lemma nodup_ensF {X} (o : option (amap (list X))) : match o with Some m => nodup_keys m | None => True end -> nodup_keys (ensF o).
+  Proof. intros H. unfold ensF. destruct o; [exact H | constructor]. Qed.
+
+  Lemma rupsert_nodup_tab {X} id (r : M) (F : option (amap (list X)) -> amap (list X)) t :
+    (forall o, match o with Some m => nodup_keys m | None => True end -> nodup_keys (F o)) ->
+    nodup_tab t -> nodup_tab (rupsert id r F t).
+  Proof.
+    intros HF. unfold nodup_tab. induction t as [|[[i r'] m] t IH]; intros H; cbn [rupsert].
+    - constructor; [cbn; apply HF; exact Logic.I | constructor].
+    - inversion H as [|? ? Hm Ht]; subst. destruct (i =? id).
+      + constructor; [cbn in *; apply HF; exact Hm | exact Ht].
+      + constructor; [exact Hm | apply IH; exact Ht].
+  Qed.
+
+  Lemma prim_wf p x : wf_policy p -> wf_policy (papply p x).
+  Proof.
+    intros (W1 & W2 & W3 & W4). destruct x; cbn [prim_apply]; unfold wf_policy;
+      cbn [set_elsAndAttrs set_elsMatchingAndAttrs set_globalAttrs set_styles set_noattrs elsMatchingAndAttrs elsMatchingAndStyles];
+      try (split; [assumption | split; [assumption | split; assumption]]).
+    - split; [apply rupsert_nodup; exact W1|]. split; [|split; assumption]. apply (rupsert_nodup_tab id r (addF a ap)); [apply nodup_addF | exact W2].
+    - split; [apply rupsert_nodup; exact W1|]. split; [|split; assumption]. apply (rupsert_nodup_tab id r ensF); [apply nodup_ensF | exact W2].
+    - split; [apply rupsert_nodup; exact W1|]. split; [|split; assumption]. apply (rupsert_nodup_tab id r ensF); [apply nodup_ensF | exact W2].
+    - split; [assumption|]. split; [assumption|]. split; [apply rupsert_nodup; exact W3|]. apply (rupsert_nodup_tab id r (addF a sp)); [apply nodup_addF | exact W4].
+  Qed.
+
+  Lemma prims_wf l : forall p, wf_policy p -> wf_policy (fold_left papply l p).
+  Proof. induction l as [|x l IH]; intros p H; cbn [fold_left]; [exact H | apply IH, prim_wf, H]. Qed.
+
+  Lemma new_policy_wf : wf_policy (@new_policy M U R).
+  Proof. repeat split; constructor. Qed.
+End WfPreserved.
+
+(* ---- any order of the primitive updates ---- *)
+Section Perm.
+  Variables M U R : Type.
+  Notation pol := (policy M U R).
+  Notation papply := (@prim_apply M U R).
+
+  Definition all_compat (l : list (prim M)) : Prop := forall x y, In x l -> In y l -> compat M x y.
+
+  Lemma fold_congr l : forall p q, core_eq p q -> core_eq (fold_left papply l p) (fold_left papply l q).
+  Proof. induction l as [|x l IH]; intros p q H; cbn [fold_left]; [exact H | apply IH, prim_congr, H]. Qed.
+
+  Theorem prims_perm l1 l2 : Permutation l1 l2 -> all_compat l1 ->
+    forall p q, core_eq p q -> core_eq (fold_left papply l1 p) (fold_left papply l2 q).
+  Proof.
+    induction 1 as [|x l1 l2 HP IH|x y l|l1 l2 l3 H1 IH1 H2 IH2]; intros Hc p q Hpq.
+    - exact Hpq.
+    - cbn [fold_left]. apply IH; [|apply prim_congr; exact Hpq]. intros a b Ha Hb. apply Hc; right; assumption.
+    - cbn [fold_left]. apply fold_congr.
+      eapply core_eq_trans; [apply prim_congr, prim_congr, Hpq|]. apply prim_comm. apply Hc; [left; reflexivity | right; left; reflexivity].
+    - eapply core_eq_trans; [apply (IH1 Hc p p (core_eq_refl _ _ _ p))|]. apply IH2; [|exact Hpq].
+      intros a b Ha Hb. apply Hc; eapply Permutation_in; try eassumption; apply Permutation_sym; assumption.
+  Qed.
+End Perm.
+
+(* ---- whole builder histories ---- *)
+Section Histories.
+  Variables M U R : Type.
+  Variable dh : bytes -> M.
+  Notation pol := (policy M U R).
+  Notation papply := (@prim_apply M U R).
+  Notation oapply := (@apply M U R dh).
+  Notation prims_of := (@prims_of M U R dh).
+  Notation is_rule := (@is_rule M U R).
+
+  (* a switch-like call touches only the options; it commutes, exactly, with every primitive rule update *)
+  Lemma switch_prim_comm p o x : is_rule o = false -> papply (oapply p o) x = oapply (papply p x) o.
+  Proof. destruct o; cbn [BuilderEquiv.is_rule]; try discriminate; intros _; destruct x; reflexivity. Qed.
+
+  Lemma switch_prims_comm l : forall p o, is_rule o = false -> fold_left papply l (oapply p o) = oapply (fold_left papply l p) o.
+  Proof.
+    induction l as [|x l IH]; intros p o H; cbn [fold_left]; [reflexivity|]. rewrite (switch_prim_comm p o x H). apply IH. exact H.
+  Qed.
+
+  Definition rules_of (h : list (op M U R)) := filter is_rule h.
+  Definition switches_of (h : list (op M U R)) := filter (fun o => negb (is_rule o)) h.
+
+  (* normal form of a history: all rule updates first, then the switch-like calls in their order *)
+  Theorem history_normal_form : forall h p,
+    fold_left oapply h p = fold_left oapply (switches_of h) (fold_left papply (flat_map prims_of (rules_of h)) p).
+  Proof.
+    induction h as [|o h IH]; intros p; cbn [fold_left]; [reflexivity|].
+    unfold rules_of, switches_of in *. cbn [filter]. destruct (is_rule o) eqn:E; cbn [negb flat_map].
+    - rewrite (apply_prims M U R dh p o E). rewrite IH. rewrite fold_left_app. reflexivity.
+    - cbn [fold_left]. rewrite IH. rewrite switch_prims_comm by exact E. reflexivity.
+  Qed.
+
+  Definition eta_opts (o : opts M U R) : opts M U R :=
+    {| o_addSpaces := o_addSpaces o; o_nf := o_nf o; o_nffq := o_nffq o; o_nr := o_nr o; o_nrfq := o_nrfq o; o_co := o_co o;
+       o_sandbox := o_sandbox o; o_tb := o_tb o; o_parse := o_parse o; o_rel := o_rel o; o_data := o_data o; o_comments := o_comments o;
+       o_schemes := o_schemes o; o_schemeres := o_schemeres o; o_rewriter := o_rewriter o; o_skip := o_skip o; o_unsafe := o_unsafe o |}.
+  Lemma get_set_opts (p0 : pol) o : get_opts (set_opts p0 o) = eta_opts o.
+  Proof. reflexivity. Qed.
+  Lemma get_opts_upd_congr (p q : pol) f : get_opts p = get_opts q -> get_opts (upd p f) = get_opts (upd q f).
+  Proof. intros H. unfold upd. rewrite !get_set_opts, H. reflexivity. Qed.
+
+  Lemma switch_congr p q o : is_rule o = false -> core_eq p q -> core_eq (oapply p o) (oapply q o).
+  Proof.
+    intros H [O A B0 C D0 E F G Hh].
+    destruct o; cbn [BuilderEquiv.is_rule] in H; try discriminate; cbn [apply];
+      (constructor; [apply get_opts_upd_congr; exact O | exact A | exact B0 | exact C | exact D0 | exact E | exact F | exact G | exact Hh]).
+  Qed.
+
+  Lemma switches_congr l : forall p q, Forall (fun o => is_rule o = false) l -> core_eq p q -> core_eq (fold_left oapply l p) (fold_left oapply l q).
+  Proof.
+    induction l as [|o l IH]; intros p q Hl H; cbn [fold_left]; [exact H|]. inversion Hl; subst. apply IH; [assumption | apply switch_congr; assumption].
+  Qed.
+
+  Lemma switch_wf p o : is_rule o = false -> wf_policy p -> wf_policy (oapply p o).
+  Proof. destruct o; cbn [BuilderEquiv.is_rule]; try discriminate; intros _ H; exact H. Qed.
+  Lemma switches_wf l : forall p, Forall (fun o => is_rule o = false) l -> wf_policy p -> wf_policy (fold_left oapply l p).
+  Proof. induction l as [|o l IH]; intros p Hl H; cbn [fold_left]; [exact H|]. inversion Hl; subst. apply IH; [assumption | apply switch_wf; assumption]. Qed.
+
+  Lemma switches_of_all h : Forall (fun o => is_rule o = false) (switches_of h).
+  Proof. apply Forall_forall. intros o Ho. apply filter_In in Ho as [_ Ho]. apply negb_true_iff in Ho. exact Ho. Qed.
+
+  (* two histories that make the same switch-like calls in the same order and the same rule-adding
+     calls in ANY order build policies with the same rules *)
+  Theorem histories_core_eq h1 h2 p : wf_policy p ->
+    switches_of h1 = switches_of h2 -> Permutation (rules_of h1) (rules_of h2) ->
+    all_compat M (flat_map prims_of (rules_of h1)) ->
+    let p1 := fold_left oapply h1 p in let p2 := fold_left oapply h2 p in
+    core_eq p1 p2 /\ wf_policy p1 /\ wf_policy p2.
+  Proof.
+    intros Hwf Hs Hp Hc. cbv zeta. rewrite (history_normal_form h1), (history_normal_form h2), Hs.
+    split; [|split].
+    - apply switches_congr; [apply switches_of_all|]. apply prims_perm; [apply Permutation_flat_map; exact Hp | exact Hc | apply core_eq_refl].
+    - rewrite <- Hs. apply switches_wf; [apply switches_of_all | apply prims_wf; exact Hwf].
+    - apply switches_wf; [apply switches_of_all | apply prims_wf; exact Hwf].
+  Qed.
+End Histories.
